@@ -43,4 +43,9 @@ BUILT["C04"] = dict(engine="parser-state-explorer", technique="explicit-state BF
                         "slot kind is serialised with tosieve(), re-parsed (tree equality) and re-serialised (byte fixed point)",
                    note=_PARSER_NOTE, design_ref="3 C04")
 
+BUILT["C20"] = dict(engine="parser-state-explorer", technique="exhaustive product of generated argument definitions x explicit-state BFS over each definition's alphabet vs reference PDA built from the same definition",
+                   text="every definition of the documented shape within the bounds is registered with add_commands under a fresh name; all uses up to the "
+                        "depth are judged (accept exactly the allowed uses, arguments under the defined names, round trip, sibling stays unknown)",
+                   note=_PARSER_NOTE, design_ref="3 C20")
+
 NOT_BUILT = {}
